@@ -91,6 +91,10 @@ def main():
             where[name] = os.path.relpath(f, MOD)
     direct = set(n for n, b in bodies.items() if re.search(r'\b(?:store|prefixStore|Store\([^)]*\))\s*\.\s*(?:Set|Delete)\s*\(|KVStore\([^)]*\)\s*\.\s*(?:Set|Delete)\s*\(|\)\.(?:Set|Delete)\(', b))
     calls = {n: set(re.findall(r'\b(?:k|keeper|a\.keeper|h\.keeper)\s*\.\s*(\w+)\s*\(', b)) | set(re.findall(r'(?<![\w.])(\w+)\s*\(', b)) for n, b in bodies.items()}
+    # calls through longer selectors and interface fields (k.ExternalEventProcessor.Handle(...)): resolved by method name
+    # against the functions of these packages (an over-approximation)
+    for n, b in bodies.items():
+        calls[n] |= set(x for x in re.findall(r'\.\s*(\w+)\s*\(', b) if x in bodies and x not in ('Set', 'Delete', 'Get', 'Has', 'Iterator', 'String', 'Error', 'Validate', 'ValidateBasic', 'Bytes', 'Hash'))
     writers = set(direct)
     changed = True
     while changed:
@@ -124,6 +128,7 @@ def main():
                 open_bodies.append(('for ' + m.group(1), body[b0:balanced(body, b0)]))
             for it, ob in open_bodies:
                 called = set(re.findall(r'\b(?:k|keeper)\s*\.\s*(\w+)\s*\(', ob) + re.findall(r'(?<![\w.])(\w+)\s*\(', ob))
+                called |= set(x for x in re.findall(r'\.\s*(\w+)\s*\(', ob) if x in bodies and x not in ('Set', 'Delete', 'Get', 'Has', 'Iterator', 'String', 'Error', 'Validate', 'ValidateBasic', 'Bytes', 'Hash'))
                 writes = bool(re.search(r'\b(?:store|prefixStore)\s*\.\s*(?:Set|Delete)\s*\(', ob)) or bool(called & writers)
                 # the deadlock pattern: the body writes to the store AND opens another iterator on it
                 for c in sorted(called & openers):
